@@ -166,3 +166,12 @@ def tasks(tier):
         for c1, c2 in itertools.combinations_with_replacement(KEY_CLASSES, 2):
             ts.append(('contracts.c02', 'alias_free', (kind, c1, c2)))
     return ts
+
+
+def meta(results, tier):
+    return {'functions': {'verified_bodies': FUNCS, 'assumed_contracts': [], 'inlined': []},
+            'assumptions': ['int is mathematical', 'NaN is outside the key domain (requires)',
+                            'A-PICKLE-canon: equal type and structure <=> equal optimised pickle',
+                            'ints outside int64, bool, None and containers are non-native keys identified by type and structure',
+                            'user-defined Disk subclasses are out of scope'],
+            'explanation': 'Disk.put/get and JSONDisk.put/get bodies executed symbolically per key class; 2 x (7 identity + 28 pair) cells'}
